@@ -78,6 +78,7 @@ def main(tier):
     chk.rule("CONF", "the send-max query cannot return a note that lacks the policy's confirmations",
              floor=1)
     chk.rule("ANCHOR", "anchor and confirmations policy given to the selector are one policy's", floor=2)
+    chk.rule("LOCKF", "selection queries are given the caller's locked-input policy", floor=6)
     chk.rule("control", "positive controls", floor=2)
     ps_rules.ps1(chk, FILES)
     ps_rules.ps2(chk, FILES)
@@ -131,6 +132,7 @@ def main(tier):
     double_spend(chk, w, ms)
     splice(chk, w)
     lock(chk, w)
+    chk.analysed["lock_filter_sites"] = lock_filter(chk, w)
     confirmations(chk, w)
     chk.analysed["selector_calls"] = anchor_policy(chk, w)
     chk.ok("control", "Step::from_parts has %d rejection kinds and %d success site(s)"
@@ -430,6 +432,62 @@ def anchor_policy(chk, w):
                 chk.fail("ANCHOR", "%s#%d" % (f.p, n), "the selector is given the anchor %s but the "
                          "confirmations policy %s: notes are judged eligible under one policy and "
                          "anchored under another" % (anc[:90], pol[:60]), t.span.loc())
+    return n
+
+
+def lock_filter(chk, w):
+    """A note locked by somebody else's in-flight proposal is not spendable unless the caller's
+    LockedInputPolicy admits it. So whatever LockFilter the proposal-building code hands to the
+    wallet's selection queries must be LockFilter::Policy(<the caller's policy>), on every path — not
+    Unfiltered, not a constant policy, not a choice that depends on something else."""
+    LF = "zcash_client_backend::data_api::locking::LockFilter"
+    n = 0
+    for f in sorted(w.fns.values(), key=lambda f: f.p):
+        root = w.fns.get(f.root) if f.is_closure() else f
+        if root is None or vc.is_test(root) or "zcash_client_backend::data_api::wallet" not in root.p:
+            continue
+        b = f.body
+        du = None
+        ordn = {}
+        for bb, t in b.calls():
+            if b.blocks[bb].cleanup or t.callee.indirect is not None:
+                continue
+            for i, a in enumerate(t.args):
+                if a.kind not in ("copy", "move") or a.place.proj:
+                    continue
+                ty = b.local_ty(a.place.local) or ""
+                if not ty.startswith(LF):
+                    continue
+                du = du or defuse.DefUse(b)
+                o = du.origin(a)
+                k0 = "%s/%s" % (f.p.replace("zcash_client_backend::data_api::wallet::", ""),
+                                t.callee.target_p().rsplit("::", 1)[-1])
+                ordn[k0] = ordn.get(k0, 0) + 1
+                key = "%s#%d" % (k0, ordn[k0])
+                n += 1
+                txt = defuse.show(o)
+                good = o[0] == "agg" and o[1] == LF + "::Policy" and len(o[2]) == 1
+                src = defuse.show(o[2][0]) if good else ""
+                if good:
+                    inner = defuse.strip_refs(o[2][0])
+                    nm = None
+                    if inner[0] == "arg":
+                        nm = (f.argnames or [None] * 30)[inner[1]] if inner[1] < len(f.argnames or []) else None
+                    elif inner[0] == "call" and inner[1].endswith("::locked_input_policy"):
+                        nm = "locked_input_policy"
+                    elif inner[0] == "field":
+                        nm = inner[2][1:]
+                    elif inner[0] == "local":
+                        nm = b.local_name(inner[1])
+                    good = bool(nm) and "locked_input_policy" in nm or (
+                        inner[0] == "field" and f.is_closure() and defuse.strip_refs(inner[1]) == ("arg", 0))
+                if good:
+                    chk.ok("LOCKF", "%s: %s is given LockFilter::Policy(%s)" % (k0, t.callee.target_p().rsplit("::", 1)[-1],
+                                                                             src[:60]), sample=(n == 1))
+                else:
+                    chk.fail("LOCKF", key, "%s is given the lock filter %s instead of LockFilter::Policy(<the caller's "
+                             "locked-input policy>): notes locked by another proposal can be selected"
+                             % (t.callee.target_p().rsplit("::", 1)[-1], txt[:160]), t.span.loc())
     return n
 
 
